@@ -117,6 +117,33 @@ func (s *Source) WaitIdleOr(d time.Duration) bool {
 	}
 }
 
+// WaitIdleUntil waits like WaitIdleOr, but additionally gives up as soon as stop() reports true (e.g.
+// "goProbe has logged a local buffer overflow", after which the consumer legitimately stops consuming
+// until it is unlocked). d is only a safety net against a stuck consumer and should be generous:
+// scheduling delays on a loaded machine must not be mistaken for a consumer that stopped.
+func (s *Source) WaitIdleUntil(d time.Duration, stop func() bool) bool {
+	deadline := time.Now().Add(d)
+	last := -1
+	for n := 0; ; n++ {
+		s.mu.Lock()
+		idle := len(s.queue) == 0 && s.waiting
+		closed := s.closed
+		del := s.delivered
+		s.mu.Unlock()
+		if idle || closed {
+			return idle
+		}
+		if del != last {
+			last = del
+			deadline = time.Now().Add(d)
+		}
+		if time.Now().After(deadline) || (n%16 == 15 && stop != nil && stop()) {
+			return false
+		}
+		time.Sleep(200 * time.Microsecond)
+	}
+}
+
 // Pending returns the number of queued, not yet delivered packets.
 func (s *Source) Pending() int {
 	s.mu.Lock()
